@@ -6,6 +6,11 @@ from tbot.machine.linux import auth
 H1 = typing.TypeVar("H1", bound=linux.LinuxShell)
 H2 = typing.TypeVar("H2", bound=linux.LinuxShell)
 
+# ParamikoConnector only exists if paramiko is installed
+_REMOTE_CONNECTORS: typing.Tuple[type, ...] = (connector.SSHConnector,) + (
+    (connector.ParamikoConnector,) if hasattr(connector, "ParamikoConnector") else ()
+)
+
 
 def _scp_copy(
     *,
@@ -144,9 +149,8 @@ def copy(p1: linux.Path[H1], p2: linux.Path[H2]) -> None:
             authenticator=p2.host.authenticator,
             use_multiplexing=p2.host.use_multiplexing,
         )
-    elif isinstance(p1.host, connector.SubprocessConnector) and (
-        isinstance(p2.host, connector.ParamikoConnector)
-        or isinstance(p2.host, connector.SSHConnector)
+    elif isinstance(p1.host, connector.SubprocessConnector) and isinstance(
+        p2.host, _REMOTE_CONNECTORS
     ):
         # Copy from local to ssh labhost
         _scp_copy(
@@ -161,9 +165,8 @@ def copy(p1: linux.Path[H1], p2: linux.Path[H2]) -> None:
             authenticator=p2.host.authenticator,
             use_multiplexing=p2.host.use_multiplexing,
         )
-    elif isinstance(p2.host, connector.SubprocessConnector) and (
-        isinstance(p1.host, connector.ParamikoConnector)
-        or isinstance(p1.host, connector.SSHConnector)
+    elif isinstance(p2.host, connector.SubprocessConnector) and isinstance(
+        p1.host, _REMOTE_CONNECTORS
     ):
         # Copy to local from ssh labhost
         _scp_copy(
@@ -174,7 +177,7 @@ def copy(p1: linux.Path[H1], p2: linux.Path[H2]) -> None:
             hostname=p1.host.hostname,
             ignore_hostkey=p1.host.ignore_hostkey,
             port=p1.host.port,
-            ssh_config=getattr(p2.host, "ssh_config", []),
+            ssh_config=getattr(p1.host, "ssh_config", []),
             authenticator=p1.host.authenticator,
             use_multiplexing=p1.host.use_multiplexing,
         )
